@@ -601,16 +601,33 @@ def check_box_corner(prog, rep):
     nf = inline_temps(f, keep=('shape', 'shift_strength'))
     ext = None
     corner = None
+    import types
     for st in stmts_of(nf):
+        # an element of a result list: `X[a] = E` or `X.append(E)`
+        tgt = val = None
         if isinstance(st, ast.Assign) and isinstance(st.targets[0], ast.Subscript):
-            tgt = unparse(st.targets[0].value)
-            subs = [b for b in ast.walk(st.value) if isinstance(b, ast.BinOp) and
-                    isinstance(b.op, ast.Sub) and 'np.max' in unparse(b.left) and
-                    'np.min' in unparse(b.right)]
-            if subs and ext is None:
-                ext = (subs[0], tgt)
-            elif not subs and ext is not None and tgt != ext[1] and corner is None:
-                corner = st
+            tgt, val = unparse(st.targets[0].value), st.value
+        elif isinstance(st, ast.Expr) and isinstance(st.value, ast.Call) and isinstance(
+                st.value.func, ast.Attribute) and st.value.func.attr == 'append' and \
+                len(st.value.args) == 1:
+            tgt, val = unparse(st.value.func.value), st.value.args[0]
+        if tgt is None:
+            continue
+        def txt(e):
+            # a name bound once in the function stands for its definition
+            if isinstance(e, ast.Name):
+                ds = [a.value for a in ast.walk(nf) if isinstance(a, ast.Assign) and
+                      len(a.targets) == 1 and unparse(a.targets[0]) == e.id]
+                if len(ds) == 1:
+                    return unparse(ds[0])
+            return unparse(e)
+        subs = [b for b in ast.walk(val) if isinstance(b, ast.BinOp) and
+                isinstance(b.op, ast.Sub) and 'np.max' in txt(b.left) and
+                'np.min' in txt(b.right)]
+        if subs and ext is None:
+            ext = (subs[0], tgt)
+        elif not subs and ext is not None and tgt != ext[1] and corner is None:
+            corner = types.SimpleNamespace(value=val, lineno=st.lineno)
     if ext is None or corner is None:
         raise AnalysisError('multi_coupling_shape: extent / corner of the box not found')
     same = unparse(corner.value) == unparse(ext[0].right)
